@@ -686,7 +686,7 @@ def _check_lu(A4, expect_ip=None):
     for i in range(m):
         for j in range(N):
             mod = np.linalg.norm(L4[i, j])
-            if (i == j and not np.array_equal(L4[i, j], [1, 0, 0, 0])) or (j > i and mod != 0) or (i > j and mod > 1 + 1e-12):
+            if (i == j and not np.array_equal(L4[i, j], [1, 0, 0, 0])) or (j > i and mod != 0) or (i > j and not (mod <= 1 + 1e-12)):
                 return {"what": "L not unit lower-triangular with multipliers <= 1", "i": i, "j": j, "value": L4[i, j]}
     for i in range(N):
         for j in range(min(i, n)):
